@@ -1343,6 +1343,8 @@ class Ranges:
             return self.refine_bool(st, ds, not bool(v))
         o = st.org.get(p)
         cur = st.iv.get(p)
+        if cur is None and ty_bounds(dty) is not None and "[*]" not in p:
+            cur = ty_bounds(dty)
         if cur is not None:
             if cur[0] == v:
                 st.iv[p] = (cur[0] + 1, cur[1])
